@@ -619,20 +619,12 @@ class SBytes:
 
     # -- text ---------------------------------------------------------------------------------
     def decode(self, encoding='utf-8', errors='strict'):
-        enc = encoding.lower().replace('_', '-')
         if self.is_concrete():
             return bytes(self.b).decode(encoding, errors)
-        if errors != 'strict':
-            raise HarnessError('SBytes.decode: only errors=strict is modelled')
-        if enc in ('utf-8', 'utf8'):
-            if not _sym_truth(utf8_wellformed(self.b)):
-                raise UnicodeDecodeError('utf-8', b'\xff', 0, 1, 'invalid start byte (symbolic buffer)')
-            return SStr(SBytes(self.b), 'utf-8')
-        if enc in ('cp1252', 'windows-1252'):
-            if not _sym_truth(cp1252_defined(self.b)):
-                raise UnicodeDecodeError('charmap', b'\x81', 0, 1, 'character maps to <undefined> (symbolic buffer)')
-            return SStr(SBytes(self.b), 'cp1252')
-        raise HarnessError(f'SBytes.decode: encoding {encoding!r} not modelled')
+        # symbolic bytes: engine/codec_text.py (utf-8, utf-8-sig, ascii, single-byte charmaps; errors strict/ignore/replace;
+        # any other codec raises a HarnessError naming it, an unknown name raises LookupError like CPython)
+        from engine import codec_text
+        return codec_text.decode(self, encoding, errors)
 
     def __repr__(self):
         c = self.concrete()
@@ -771,46 +763,40 @@ def _utf8_eq_cp1252(a, b):
 
 
 class SStr:
-    """text of concrete encoded length, represented by its encoded bytes"""
-    __slots__ = ('raw', 'enc')
+    """text of concrete encoded length, represented by the bytes it was decoded from: stands for
+    raw.decode(enc, errors).  errors == 'strict' (the normal case) means raw is valid for enc on this path;
+    other values only arise from a lossy decode of invalid symbolic input (see engine/codec_text.py)."""
+    __slots__ = ('raw', 'enc', 'errors')
 
-    def __init__(self, raw: SBytes, enc='utf-8'):
+    def __init__(self, raw: SBytes, enc='utf-8', errors='strict'):
         self.raw = raw
         self.enc = enc
+        self.errors = errors
+
+    def text(self):
+        """the python str when the bytes are concrete, else None"""
+        c = self.raw.concrete()
+        return None if c is None else c.decode(self.enc, self.errors)
 
     def encode(self, encoding='utf-8', errors='strict'):
-        e = encoding.lower().replace('_', '-')
-        if e in ('utf8',):
-            e = 'utf-8'
-        if e == self.enc:
+        if encoding == self.enc == 'utf-8' and self.errors == 'strict':
             return SBytes(self.raw.b)
-        c = self.raw.concrete()
-        if c is not None:
-            return SBytes(list(c.decode(self.enc).encode(encoding, errors)))
-        raise HarnessError(f'SStr.encode: {self.enc} text re-encoded as {encoding}')
+        from engine import codec_text
+        return codec_text.encode(self, encoding, errors)
 
     def eq_formula(self, o):
         if isinstance(o, Box):
             o = o.v
         if isinstance(o, str):
-            c = self.raw.concrete()
+            c = self.text()
             if c is not None:
-                return c.decode(self.enc) == o
-            try:
-                return self.raw.eq_formula(o.encode(self.enc))
-            except UnicodeEncodeError:
-                return False
+                return c == o
+            o = SStr(SBytes(list(o.encode('utf-8', 'surrogatepass'))), 'utf-8')
         if isinstance(o, SStr):
-            if o.enc == self.enc:
+            if o.enc == self.enc and self.errors == o.errors == 'strict':
                 return self.raw.eq_formula(o.raw)
-            a, b = self.raw.concrete(), o.raw.concrete()
-            if a is not None and b is not None:
-                return a.decode(self.enc) == b.decode(o.enc)
-            if self.enc == 'utf-8' and o.enc == 'cp1252':
-                return _utf8_eq_cp1252(self.raw.b, o.raw.b)
-            if self.enc == 'cp1252' and o.enc == 'utf-8':
-                return _utf8_eq_cp1252(o.raw.b, self.raw.b)
-            raise HarnessError('comparison of symbolic texts with different encodings')
+            from engine import codec_text
+            return codec_text.text_eq(self, o)      # texts carried in different codecs / lossy decodes
         return False
 
     def __eq__(self, o):
@@ -822,12 +808,17 @@ class SStr:
         return (not r) if isinstance(r, bool) else SBool(z3.Not(r))
 
     def __bool__(self):
-        return len(self.raw) > 0
+        if self.errors == 'ignore' and not self.raw.is_concrete():
+            raise HarnessError("truth of a text decoded with errors='ignore' from invalid symbolic input is not modelled")
+        c = self.text()
+        return len(c) > 0 if c is not None else len(self.raw) > 0
 
     def __len__(self):
-        c = self.raw.concrete()
+        c = self.text()
         if c is not None:
-            return len(c.decode(self.enc))
+            return len(c)
+        if self.errors != 'strict':
+            raise HarnessError(f'len() of a text decoded with errors={self.errors!r} from invalid symbolic input is not modelled')
         if self.enc != 'utf-8':
             return len(self.raw)
         n = z3.Sum([z3.If(_rng(t, 0x80, 0xBF), 0, 1) if not isinstance(t, int) else (0 if 0x80 <= t <= 0xBF else 1)
@@ -835,9 +826,9 @@ class SStr:
         return _concretize(z3.simplify(n), limit=len(self.raw) + 2)
 
     def __hash__(self):
-        c = self.raw.concrete()
+        c = self.text()
         if c is not None:
-            return hash(c.decode(self.enc))
+            return hash(c)
         raise HarnessError('hash of symbolic text')
 
     def __repr__(self):
@@ -1625,7 +1616,7 @@ def evaluate(model, v):
     if isinstance(v, SBytes):
         return bytes(t if isinstance(t, int) else ev(t).as_long() for t in v.b)
     if isinstance(v, SStr):
-        return evaluate(model, v.raw).decode(v.enc)
+        return evaluate(model, v.raw).decode(v.enc, v.errors)
     if isinstance(v, SIp):
         return '.'.join(str(x) for x in evaluate(model, v.octets))
     if isinstance(v, list):
@@ -1828,7 +1819,7 @@ def _validate_decompressobj(rng):
             f'stalls, any other byte is an error')
 
 
-def validate(path=TEST_VECTORS, deep=True):
+def validate(path=TEST_VECTORS, deep=True, text_deep=False):
     """differential validation of every stub against the real function.  Raises HarnessError on
     any disagreement; returns a list of notes for the evidence."""
     import random
@@ -2000,4 +1991,8 @@ def validate(path=TEST_VECTORS, deep=True):
             raise HarnessError(f'stubbed obfuscation differs for length {ln}')
         n += 1
     notes.append(f'obfuscation.encode/decode: real == stubbed on {n} concrete key/length cases (lengths 0..260)')
+
+    # 7. text codecs on symbolic bytes (utf-8-sig, ascii, latin-1, cp1252, errors=...) against CPython
+    from engine import codec_text
+    notes.extend(codec_text.validate(deep=text_deep))
     return notes
